@@ -1,13 +1,13 @@
 (* C15 - RocksDB multi-value store behaves like a map of lists.
    This file holds only theorem statements closed by [exact]; the proofs are in
-   Proofs/MultiValue.v, Proofs/MapOfLists.v, Proofs/BytesOrder.v, Proofs/Batch.v.
+   Proofs/MultiValue.v, Proofs/MapOfLists.v, Proofs/KeyOrder.v, Proofs/Batch.v.
 
    Vocabulary: okv v = the value is shorter than 2^32 bytes; store_ok s = every stored
    value is a non-empty sequence of framed values (invariant, holds for the empty store and is
    preserved by every operation); abs s k = what ForEach reads under k; sort_ok sort = sort
    returns a permutation sorted by bytes.Compare (all that is assumed about sort.Slice);
    kvs_ok l / op_ok o = the added values are okv. *)
-From DnsV Require Import Model.Batch Spec.MapOfLists Proofs.MultiValue Proofs.MapOfLists Proofs.BytesOrder Proofs.Batch.
+From DnsV Require Import Model.Batch Spec.MapOfLists Proofs.MultiValue Proofs.MapOfLists Proofs.KeyOrder Proofs.Batch.
 From Coq Require Import Permutation Sorted.
 Open Scope N_scope.
 
